@@ -66,6 +66,12 @@ def main():
           for lay in m.layers:
             if lay.get_weights():
               lay.trainable = False
+        if cls == "QAdaptiveActivation":
+          # history: the layer has been trained for a few steps (its running statistics moved) and used once at inference
+          for k in range(3):
+            m(tf.constant(x * (k + 1.5)), training=True)
+          m(tf.constant(x), training=False)
+          info["trained"] = True
         y, q = probe(m, x)
       except Exception as e:
         info["construct_exc"] = repr(e)[:300]
